@@ -566,6 +566,7 @@ def check_get_byte(chk, m):
     if len(fn.args) != 2:
         raise AnalysisError("hex_get_byte signature changed")
     cur = Cursor(fn, m, fn.args[0].name, fn.args[1].name)
+    PFX_SEEN[0] = 0
     IN = cur.run()
     seen = set()
     for rule, inst, ok, detail in cur.findings:
@@ -603,6 +604,15 @@ def check_get_byte(chk, m):
                         continue
                     S = found
                 check_return_edge(chk, m, fn, t, v, pred, blk, part, S)
+    # a pair that starts with two hexadecimal digits needs no prefix handling - but SOME successful parse must be one that looked
+    # for "0x" where the digits start (after the white space), or " 0x12" is never parsed at all
+    chk.ob("H2.hex-prefix", "some successful parse handles the prefix", PFX_SEEN[0] >= 1,
+           "at least one success path looks for the optional \"0x\" at the position the digits are then taken from (%d do)" % PFX_SEEN[0]
+           if PFX_SEEN[0] else "no success path looks for the optional \"0x\" at the position of the digits (it is tested before the "
+           "white space is skipped, or not at all): \" 0x12\" is not parsed", fn.loc, fn.name)
+
+
+PFX_SEEN = [0]      # success edges on which the "0x" prefix was looked for at the position of the digits
 
 
 def check_return_edge(chk, m, fn, t, v, pred, blk, part, S):
@@ -655,6 +665,8 @@ def check_return_edge(chk, m, fn, t, v, pred, blk, part, S):
                         if kk and (dig is None or kk[1] < dig[1]):
                             dig = kk
         okp = dig is not None and dig[1] == 0 and (("pfxok", dig[0]) in S or ("pfx", dig[0]) in S)
+        if okp:
+            PFX_SEEN[0] += 1
         if not okp and dig is not None and ("xd", dig[0], dig[1]) in S and ("xd", dig[0], dig[1] + 1) in S:
             okp = True      # both characters are hexadecimal digits: the second is not 'x', so there is no "0x" here to skip
         chk.ob("H2.hex-prefix", where, okp,
